@@ -467,7 +467,11 @@ func (s *Session) onPlay(resp *Response, req *Request) (err error) {
 
 func (s *Session) checkPermission(right auth.AccessRight) bool {
 	if s.authMode == auth.NoneAuth {
-		return true
+		// WebSocket 会话的身份已由 http 层验证（因此不做 RTSP 摘要认证），
+		// 但启用验证时各路径的拉/推权限仍需按该用户检查
+		if s.wsconn == nil || !config.Auth() {
+			return true
+		}
 	}
 
 	if s.user == nil {
@@ -563,7 +567,9 @@ func (s *Session) onPreprocess(resp *Response, req *Request) (continueProcess bo
 		return false, err
 	}
 
-	s.user = user
+	if s.authMode != auth.NoneAuth { // 无 RTSP 认证的会话（WebSocket）保留接入时确定的用户
+		s.user = user
+	}
 	return true, nil
 }
 
